@@ -1364,6 +1364,22 @@ func analyzeLiterals(literals *literal.Seq, config Config) literalAnalysis {
 	return result
 }
 
+// hasNoWordBoundary reports whether the pattern contains a \B assertion.
+func hasNoWordBoundary(re *syntax.Regexp) bool {
+	if re == nil {
+		return false
+	}
+	if re.Op == syntax.OpNoWordBoundary {
+		return true
+	}
+	for _, sub := range re.Sub {
+		if hasNoWordBoundary(sub) {
+			return true
+		}
+	}
+	return false
+}
+
 // hasWordBoundaryAnchorCombo returns true if the pattern combines word boundary
 // assertions (\b, \B) with anchors (^, $) in a way that causes DFA correctness issues.
 // Example: `\b^` matches in stdlib but DFA fails to handle the assertion combo.
@@ -1540,6 +1556,13 @@ func SelectStrategy(n *nfa.NFA, re *syntax.Regexp, literals *literal.Seq, config
 	// Delegated to helper function to reduce cyclomatic complexity.
 	if strategy := selectLiteralStrategy(literals, litAnalysis); strategy != 0 {
 		return strategy
+	}
+
+	// The lazy DFA decides \B from single bytes (previous byte class + next byte) and
+	// restarts at every byte offset, so \B would also hold between the bytes of a
+	// multi-byte rune. The NFA engines test rune boundaries (nfa.insideRune).
+	if hasNoWordBoundary(re) {
+		return UseNFA
 	}
 
 	// Check for simple digit-lead patterns before general DFA routing.
